@@ -617,7 +617,7 @@ def config(prop, tier):
     quick = tier == "quick"
     cfg = {"scenarios": 40 if quick else 120, "stream_weights": [4, 2, 2, 2, 1, 2], "one_at_a_time": not quick}
     cfg["runs"] = {"C01": 110, "C03": 90, "C04": 90, "C06": 80, "C20": 90}[prop] if quick else \
-        {"C01": 2500, "C03": 2000, "C04": 2000, "C06": 1800, "C20": 2000}[prop]
+        {"C01": 450, "C03": 450, "C04": 450, "C06": 450, "C20": 500}[prop]
     return cfg
 
 
